@@ -43,12 +43,6 @@ Lemma forallb_Forall {A} (f : A -> bool) (P : A -> Prop) (l : list A) :
   (forall x, f x = true -> P x) -> forallb f l = true -> Forall P l.
 Proof. intros H Hf. rewrite forallb_forall in Hf. rewrite Forall_forall. intros x Hx. apply H. apply Hf. exact Hx. Qed.
 
-Lemma kw_free_b_sound c : kw_free_b c = true -> kw_free c.
-Proof.
-  unfold kw_free_b, kw_free. intro H. repeat (apply andb_true_iff in H as [H ?]).
-  repeat split; apply negb_true_iff; assumption.
-Qed.
-
 Lemma wf_target_b_sound st pkg rp path : wf_target_b st pkg rp path = true -> wf_target st pkg rp path.
 Proof.
   unfold wf_target_b, wf_target. destruct (qname_eqb pkg rp) eqn:E; intro H; split; intro E'; try discriminate.
@@ -60,12 +54,11 @@ Qed.
 
 Lemma wf_tref_b_sound x pkg rp path : wf_tref_b x pkg rp path = true -> wf_tref x pkg rp path.
 Proof.
-  unfold wf_tref_b. intro H. apply andb_true_iff in H as [H H4]. apply andb_true_iff in H as [H H3].
+  unfold wf_tref_b. intro H. apply andb_true_iff in H as [H H3].
   apply andb_true_iff in H as [H1 H2]. split; [apply is_nil_false; apply negb_true_iff; exact H1|].
-  split; [apply wf_target_b_sound; exact H2|]. split.
-  - apply existsb_exists in H3 as (e & He & Ee). unfold entry_eqb in Ee. cbn [fst snd] in Ee.
-    apply andb_true_iff in Ee as [E1 E2]. apply qname_eqb_eq in E1, E2. destruct e as [a b]. cbn [fst snd] in *. subst. exact He.
-  - apply (forallb_Forall kw_free_b); [exact kw_free_b_sound|exact H4].
+  split; [apply wf_target_b_sound; exact H2|].
+  apply existsb_exists in H3 as (e & He & Ee). unfold entry_eqb in Ee. cbn [fst snd] in Ee.
+  apply andb_true_iff in Ee as [E1 E2]. apply qname_eqb_eq in E1, E2. destruct e as [a b]. cbn [fst snd] in *. subst. exact He.
 Qed.
 
 Lemma wf_dvt_b_sound x pkg t : wf_dvt_b x pkg t = true -> wf_dvt x pkg t.
